@@ -45,6 +45,11 @@ func parseUrlPath(pathStr string, m meta.Definition) ([]*Path, error) {
 			}
 		}
 
+		if strings.Contains(ident, "/") {
+			// an escaped slash is part of the name, not a schema path to navigate
+			return nil, fmt.Errorf("%w. %s not found in %s", fc.NotFoundError, ident, p.Meta.Ident())
+		}
+
 		// find meta associated with path ident
 		parentDefs, hasDefs := p.Meta.(meta.HasDefinitions)
 		if !hasDefs {
